@@ -278,8 +278,13 @@ class FortranBackend(BaseBackend):
         # `self._fname`), and surface any compiler errors as a Python
         # exception instead of letting the next `import` line fail with an
         # opaque ImportError.
+        # The extension module gets a name that depends on the generated source: an extension module cannot be
+        # re-imported once loaded, so a second model compiled under the same file name in this process would otherwise
+        # silently get the machine code of the first one (`from <fname> import ...` returns the cached module).
+        import hashlib
+        ext_name = f"{self._fname}_{hashlib.sha1(''.join(func_file).encode('utf-8')).hexdigest()[:12]}"
         completed = subprocess.run(
-            [sys.executable, '-m', 'numpy.f2py', '-c', '-m', self._fname, file],
+            [sys.executable, '-m', 'numpy.f2py', '-c', '-m', ext_name, file],
             capture_output=True, text=True,
         )
         if completed.returncode != 0:
@@ -291,7 +296,7 @@ class FortranBackend(BaseBackend):
             )
 
         # import function from temporary file
-        exec(f"from {self._fname} import {self._fname}", globals())
+        exec(f"from {ext_name} import {self._fname}", globals())
         exec(f"rhs_eval = {self._fname}.{func_name}", globals())
         rhs_eval = globals().pop('rhs_eval')
 
